@@ -19,6 +19,25 @@ LEVEL = "exploration"
 ONE = (0,)
 
 
+_LOCK_PID = None
+
+
+def _own_av_lock():
+    """Av._CACHE_LOCK is a multiprocessing.Lock created at import time; forked pool
+    workers inherit the *same* OS semaphore, which serialises every Av query across
+    all workers of the pool.  Each process gets its own lock (what a freshly started
+    interpreter has); behaviour inside one process is unchanged."""
+    global _LOCK_PID
+    import multiprocessing
+    import os
+
+    if _LOCK_PID != os.getpid():
+        from permuta import Av
+
+        Av._CACHE_LOCK = multiprocessing.Lock()
+        _LOCK_PID = os.getpid()
+
+
 def _fresh(perms):
     Perm = D.P()
     return [Perm(tuple(p)) for p in perms]
@@ -141,6 +160,7 @@ for _h in HELPER_NAMES:
 def _make_valid_extension(name):
     @check(f"C19.valid_extension.{name}")
     def valid_extension(perm):
+        _own_av_lock()
         Perm = D.P()
         t = S.to_spec(perm)
         want = T.CORE[name][1](t)
@@ -155,6 +175,7 @@ def _make_valid_extension(name):
 def _make_applies(name):
     @check(f"C19.applies.{name}")
     def applies(basis):
+        _own_av_lock()
         b = _tuples(basis)
         if name == "InsertionEncodingStrategy":
             want = T.insertion_encoding_applies(b)
@@ -183,6 +204,7 @@ for _n in T.ORDER:
 # ------------------------------------------------------------ find_strategies
 @check("C19.find_strategies.fast")
 def find_fast(basis):
+    _own_av_lock()
     from permuta.enumeration_strategies import find_strategies
 
     b = _tuples(basis)
@@ -204,6 +226,7 @@ def find_slow(basis):
     """Quick search = slow search minus the slow strategies; the slow search
     reports FinitelyManySimplesStrategy exactly when C16 says so; the default is the
     slow search."""
+    _own_av_lock()
     from permuta.enumeration_strategies import find_strategies
 
     fast = _names(find_strategies(list(_fresh(basis)), long_runnning=False))
@@ -225,6 +248,7 @@ def invariance(item):
     do not change the reported set (quick search).  One-shot iterators are not part
     of this property's statement (find_strategies hands the same iterator to every
     strategy constructor, so only the first one sees the elements)."""
+    _own_av_lock()
     arr = item
     from permuta import Basis
     from permuta.enumeration_strategies import find_strategies
@@ -256,6 +280,7 @@ def invariance(item):
 
 @check("C19.invariance.slow")
 def invariance_slow(basis):
+    _own_av_lock()
     from permuta.enumeration_strategies import find_strategies
 
     Perm = D.P()
